@@ -464,13 +464,13 @@ func (t *TransportLayerCC) Unmarshal(rawPacket []byte) error { //nolint:gocognit
 
 	// https://tools.ietf.org/html/rfc4585#page-33
 	// header's length + payload's length
-	totalLength := 4 * (t.Header.Length + 1)
+	totalLength := 4 * (int(t.Header.Length) + 1)
 
 	if totalLength < headerLength+packetChunkOffset {
 		return errPacketTooShort
 	}
 
-	if len(rawPacket) < int(totalLength) {
+	if len(rawPacket) < totalLength {
 		return errPacketTooShort
 	}
 
@@ -485,7 +485,7 @@ func (t *TransportLayerCC) Unmarshal(rawPacket []byte) error { //nolint:gocognit
 	t.ReferenceTime = get24BitsFromBytes(rawPacket[headerLength+referenceTimeOffset : headerLength+referenceTimeOffset+3])
 	t.FbPktCount = rawPacket[headerLength+fbPktCountOffset]
 
-	packetStatusPos := uint16(headerLength + packetChunkOffset)
+	packetStatusPos := headerLength + packetChunkOffset
 	// counted in int: a status vector chunk can overshoot PacketStatusCount by up to 13,
 	// which must end the loop rather than wrap a 16-bit counter
 	var processedPacketNum int
